@@ -279,6 +279,7 @@ pub fn scenario(prop: &str, tier: &str, sseed: u64, index: u64) -> (&'static str
         "C07" | "C11" if structured < 40 => return ("handle-walk", families::handle_walk(&mut g)),
         "C07" if structured < 52 => return ("abandoned-ops", families::abandoned_ops(&mut g)),
         "C07" | "C11" if structured < 60 => return ("upgrade-while-queued", families::upgrade_while_queued(&mut g)),
+        "C07" if structured < 66 => return ("abandoned-ask_join", families::abandoned_ask_join(&mut g)),
         "C02" | "C09" if (50..58).contains(&structured) => return ("abandoned-ops", families::abandoned_ops(&mut g)),
         "C02" if structured < 30 => return ("queued-senders", families::queued_senders(&mut g)),
         "C01" if structured < 25 => return ("send-then-drop", families::send_then_drop(&mut g)),
